@@ -123,6 +123,19 @@ def main():
             for kind, where, text in mutants_of(path, rel):
                 ms.append((kind, where, rel, text))
     random.Random(seed).shuffle(ms)
+    rerun = arg("--rerun", "")
+    if rerun:
+        # re-run the mutants of an earlier sweep that were silent or ended in an analysis error
+        want = set()
+        for l in open(rerun):
+            r = json.loads(l)
+            if not r["violations"]:
+                want.add((r["kind"], r["where"]))
+        ms = [m for m in ms if (m[0], m[1]) in want]
+        mx = len(ms)
+    else:
+        skip = int(arg("--skip", "0"))
+        ms = ms[skip:]
     print("%d candidate mutants, running %d" % (len(ms), min(mx, len(ms))))
     ms = ms[:mx]
     n = 0
